@@ -78,7 +78,7 @@ func hpConstArg(c *Ctx, fn *ssa.Function, callee string, idx int) (int64, string
 		return 0, fmt.Sprintf("%d calls of %s in %s (want 1)", len(calls), callee, FnName(fn))
 	}
 	ev := &HxEval{}
-	v, ok := ev.Value(calls[0].(*ssa.Call).Call.Args[idx])
+	v, ok := ev.Value(BaselineArgs(&calls[0].(*ssa.Call).Call)[idx])
 	if !ok {
 		return 0, fmt.Sprintf("argument %d of %s in %s is not a constant", idx, callee, FnName(fn))
 	}
@@ -195,8 +195,8 @@ func hpackModel(c *Ctx) *hpModel {
 			case hpD + "parseDynamicTableSizeUpdate":
 				t = hpTarget{kind: "update", n: nUpd}
 			case hpD + "parseFieldLiteral":
-				n, ok1 := ev.Value(out.Call.Call.Args[1])
-				it, ok2 := ev.Value(out.Call.Call.Args[2])
+				n, ok1 := ev.Value(BaselineArgs(&out.Call.Call)[1])
+				it, ok2 := ev.Value(BaselineArgs(&out.Call.Call)[2])
 				if ok1 && ok2 {
 					t = hpTarget{kind: "literal", n: n, it: it}
 				} else {
@@ -296,9 +296,9 @@ func hpackModel(c *Ctx) *hpModel {
 		if out.Kind != "call" {
 			return fail("appendIndexedName prefix", "cannot reach appendVarInt: "+out.Kind+" "+out.Why)
 		}
-		n, ok := ev.Value(out.Call.Call.Args[1])
+		n, ok := ev.Value(BaselineArgs(&out.Call.Call)[1])
 		if !ok {
-			return fail("appendIndexedName prefix", "prefix length `"+Term(out.Call.Call.Args[1])+"` is not decided by `indexing`")
+			return fail("appendIndexedName prefix", "prefix length `"+Term(BaselineArgs(&out.Call.Call)[1])+"` is not decided by `indexing`")
 		}
 		m.nameN[ix] = n
 	}
@@ -316,8 +316,8 @@ func hpackModel(c *Ctx) *hpModel {
 		if call, ok := in.(*ssa.Call); ok && first == "" {
 			if b, ok := call.Call.Value.(*ssa.Builtin); ok && b.Name() == "append" {
 				first = "?"
-				if sl, ok := call.Call.Args[1].(*ssa.Slice); ok {
-					if al, ok := sl.X.(*ssa.Alloc); ok && Term(call.Call.Args[0]) == "$0" {
+				if sl, ok := BaselineArgs(&call.Call)[1].(*ssa.Slice); ok {
+					if al, ok := sl.X.(*ssa.Alloc); ok && Term(BaselineArgs(&call.Call)[0]) == "$0" {
 						HxEachInstr(ann, func(x ssa.Instruction) {
 							if st, ok := x.(*ssa.Store); ok {
 								if ia, ok := st.Addr.(*ssa.IndexAddr); ok && ia.X == al && Term(ia.Index) == "0" {
@@ -761,8 +761,8 @@ func c01Encoder(c *Ctx) {
 			why = fmt.Sprintf("%d stores to minSize, %d setMaxSize calls", len(sts), len(calls))
 		} else {
 			v := sts[0].(*ssa.Store).Val
-			if calls[0].(*ssa.Call).Call.Args[1] != v {
-				why = fmt.Sprintf("minSize receives `%s` but setMaxSize installs `%s`", Term(v), Term(calls[0].(*ssa.Call).Call.Args[1]))
+			if BaselineArgs(&calls[0].(*ssa.Call).Call)[1] != v {
+				why = fmt.Sprintf("minSize receives `%s` but setMaxSize installs `%s`", Term(v), Term(BaselineArgs(&calls[0].(*ssa.Call).Call)[1]))
 			} else if a, err := c.P.ParseAtom(Term(v) + " < $r.minSize"); err != nil {
 				why = err.Error()
 			} else {
@@ -818,11 +818,11 @@ func c01Decoder(c *Ctx) {
 		rule = "field-provenance"
 		first := func(v ssa.Value) bool {
 			cl, ok := v.(*ssa.Call)
-			return ok && CalleeName(&cl.Call) == hpD+"readString" && Term(cl.Call.Args[1]) == "readVarInt($0,$r.buf)#1"
+			return ok && CalleeName(&cl.Call) == hpD+"readString" && Term(BaselineArgs(&cl.Call)[1]) == "readVarInt($0,$r.buf)#1"
 		}
 		second := func(v ssa.Value) bool {
 			cl, ok := v.(*ssa.Call)
-			return ok && CalleeName(&cl.Call) == hpD+"readString" && Term(cl.Call.Args[1]) != "readVarInt($0,$r.buf)#1"
+			return ok && CalleeName(&cl.Call) == hpD+"readString" && Term(BaselineArgs(&cl.Call)[1]) != "readVarInt($0,$r.buf)#1"
 		}
 		var nameDec, valDec []ssa.Instruction
 		for _, in := range Stores("http2/hpack.HeaderField.Name").F(c.P, fn) {
